@@ -196,7 +196,18 @@ qb_hdb_handle_put(struct qb_hdb * hdb, qb_handle_t handle_in)
 		return (-EBADF);
 	}
 
+	if (qb_atomic_int_get(&entry->ref_count) < 1) {
+		/* nothing to give back (the object is being destroyed) */
+		return (-EBADF);
+	}
 	if (qb_atomic_int_dec_and_test(&entry->ref_count)) {
+		/*
+		 * Gone for everybody else before the destructor runs: a get,
+		 * put or destroy of this handle from inside it finds no
+		 * object, as it does when the last reference is dropped by
+		 * qb_hdb_handle_destroy().
+		 */
+		entry->state = QB_HDB_HANDLE_STATE_PENDINGREMOVAL;
 		if (hdb->destructor) {
 			hdb->destructor(entry->instance);
 		}
